@@ -5,6 +5,8 @@ import MsPack.Cabx.OutName
 import MsPack.Cabx.Modes
 import MsPack.Lzss.Decoder
 import MsPack.Oab.Crc32
+import MsPack.Spec.CabEncode
+import MsPack.Spec.Lzss
 /-
 `prim WHAT ARGS…`: direct calls of the models of static functions.
 -/
@@ -87,6 +89,54 @@ def handle (toks : List String) : HM State Bool := do
         emit s!"prim select {" ".intercalate (idx.map toString)}"
       | _, _ => emit "prim select bad-args"
     | _, _, _ => emit "prim select bad-args"
+    return true
+  | "prim" :: "enccab" :: len :: setId :: setIdx :: nfold :: rest =>
+    -- driver-only: the bytes of `Cab.encodeHeaders` (the writer the C01 theorem is stated against) for a listing:
+    -- prim enccab LENGTH SETID SETIDX NFOLD (DATAOFF NBLOCKS COMP)*NFOLD NFILES (NAMEHEX LEN OFF FOLDER ATTR Y MO D H MI S)*NFILES
+    let nums (l : List String) : Option (List Nat) := l.mapM parseNat
+    match parseNat len, parseNat setId, parseNat setIdx, parseNat nfold with
+    | some len, some sid, some six, some nf =>
+      match nums (rest.take (3 * nf)), (rest.drop (3 * nf)) with
+      | some fnums, nfilesTok :: frest =>
+        let rec folders : List Nat → List Cab.FolderSpec
+          | a :: b :: c :: t => ⟨a, b, c⟩ :: folders t
+          | _ => []
+        let rec files : Nat → List String → Option (List Cab.FileSpec)
+          | 0, _ => some []
+          | k + 1, nm :: l => do
+            let name ← parseHex nm
+            let v ← nums (l.take 10)
+            match v with
+            | [ln, off, fo, att, y, mo, d, h, mi, s] =>
+              let tl ← files k (l.drop 10)
+              pure (⟨name, ln, off, fo, att, y, mo, d, h, mi, s⟩ :: tl)
+            | _ => none
+          | _, _ => none
+        match parseNat nfilesTok with
+        | some nfi =>
+          match files nfi frest with
+          | some fl =>
+            let c : Cab.CabSpec := ⟨len, sid, six, 0, 0, 0, 0, 3, 1, folders fnums, fl⟩
+            emit s!"prim enccab {toHex (Cab.encodeHeaders c)}"
+          | none => emit "prim enccab bad-args"
+        | none => emit "prim enccab bad-args"
+      | _, _ => emit "prim enccab bad-args"
+    | _, _, _, _ => emit "prim enccab bad-args"
+    return true
+  | "prim" :: "lzssenc" :: mode :: toks =>
+    -- driver-only: `Lzss.encode` of a token list (L<hex byte> | M<mpos>:<len>) and the digest of its reference
+    -- expansion on the ring as it stands on entry in that mode:  prim lzssenc HEX OUT
+    let tok (s : String) : Option Lzss.Tok :=
+      if s.startsWith "L" then (parseHex (s.drop 1).toString).bind fun b => match b with | [x] => some (.lit x) | _ => none
+      else if s.startsWith "M" then
+        match (s.drop 1).toString.splitOn ":" with
+        | [a, b] => do let m ← a.toNat?; let l ← b.toNat?; pure (.mat m l)
+        | _ => none
+      else none
+    match parseNat mode, toks.mapM tok with
+    | some m, some ts =>
+      emit s!"prim lzssenc {optHex (some (Lzss.encode ts))} {outDigest (Lzss.expand ts (Lzss.initRing m)).out.toList}"
+    | _, _ => emit "prim lzssenc bad-args"
     return true
   | ["prim", "encint", hex] =>
     -- chmd.c read_encint on the bytes (end = p + len): value, bytes consumed, *err
